@@ -275,9 +275,11 @@ func xmlCase(line string, rep *Report, fnd *Findings) {
 	}
 	if k := strings.Index(plain, ">"); k >= 0 {
 		bad = append(bad, plain[:k+1]+"&undefined;"+plain[k+1:]) // undefined entity
-		bad = append(bad, plain[:k+1]+"\x01"+plain[k+1:])        // invalid character
-		bad = append(bad, plain[:k+1]+"a & b"+plain[k+1:])       // bare ampersand
-		bad = append(bad, plain[:k+1]+"<"+plain[k+1:])           // stray <
+		bad = append(bad, plain[:k+1]+"&nbsp;"+plain[k+1:])      // ... also when HTML happens to define the name
+		bad = append(bad, plain[:k+1]+"caf&eacute;"+plain[k+1:])
+		bad = append(bad, plain[:k+1]+"\x01"+plain[k+1:])  // invalid character
+		bad = append(bad, plain[:k+1]+"a & b"+plain[k+1:]) // bare ampersand
+		bad = append(bad, plain[:k+1]+"<"+plain[k+1:])     // stray <
 	}
 	bad = append(bad, `<?xml version="1.0" encoding="UTF-8"?>`+strings.Replace(plain, ">", ">\xff\xfe", 1)) // invalid UTF-8
 	bad = append(bad, `<?xml version="1.0" encoding="no-such-charset"?>`+plain)                             // unknown encoding
